@@ -77,4 +77,8 @@ theorem glue_calls_names : Gen.SolverGlue.callFacts.map (·.1) =
      "diffusion: Solver(geometry, lump=True, aniso=aniso)", "diffusion returns the solver output unchanged", "diffusion: matrix format csc"] := by
   decide
 
+
+/-! ### census of data-dependent decisions: the traced code took exactly the branches the model knows about -/
+theorem census_SolverGlue_pcCount : Gen.SolverGlue.pcCount = 0 := rfl
+
 end LapyVerif.Bridge
